@@ -17,7 +17,7 @@ func Kitchen() *Schema {
 	s.Add(&TypeDef{Kind: KObject, Name: "P", Interfaces: []string{"I"}, Fields: []*FieldDef{F("x:String"), F("z:String"), F("o:O")}})
 	s.Add(&TypeDef{Kind: KUnion, Name: "U", Members: []string{"O", "P"}})
 	s.Add(&TypeDef{Kind: KObject, Name: "Query", Fields: []*FieldDef{
-		F("a:String"), F("b:Int"), F("n:String!"), F("e:E"), F("f(x:Int=7,y:E,in:In):String"),
+		F("a:String"), F("b:Int"), F("n:String!"), F("e:E"), F("f(x:Int=7,y:E,in:In,lin:[In!],ll:[[Int]]):String"),
 		F("o:O"), F("on:O!"), F("i:I"), F("u:U"), F("l:[O]"), F("ln:[O!]!"), F("ll:[[O]]"), F("li:[I]"), F("c:Custom"), F("fl:Float"), F("id:ID"), F("bo:Boolean")}})
 	s.Add(&TypeDef{Kind: KObject, Name: "Mutation", Fields: []*FieldDef{
 		F("m1:Int"), F("m2:Int"), F("m3:O"), F("m4:[O]"), F("m5:Int!")}})
